@@ -39,6 +39,15 @@ int main() {
         if (per) h->setPeriodic(true);
         h->Initialize(mn, mx, n);
         std::cout << "ok step " << h->getStep() << " nbins " << h->getNBins() << std::endl;
+      } else if (cmd == "reinit") {
+        // the SAME object is initialised again (object reuse)
+        double mn, mx;
+        long n;
+        int per;
+        in >> mn >> mx >> n >> per;
+        h->setPeriodic(per != 0);
+        h->Initialize(mn, mx, n);
+        std::cout << "ok step " << h->getStep() << " nbins " << h->getNBins() << std::endl;
       } else if (cmd == "proc") {
         double v, w;
         in >> v >> w;
